@@ -46,6 +46,13 @@ pub trait Adapter {
     fn trapdoor_obs(_c: &Case, _out: &mut Out) {}
     /// the polynomial as the library holds it (canonical term list), for schemes whose model needs it
     fn poly_input(_i: usize, _p: &Self::P, _out: &mut Out) {}
+    /// inputs of the scheme's model for one committed polynomial (linear codes: dimensions, coefficient vector, encoder, number of queries)
+    fn model_inputs(_i: usize, _ck: &CK<Self>, _p: &Self::P, _cm: &Cm<Self>, _out: &mut Out) {}
+    fn point_input(_j: usize, _pt: &Pt<Self>, _out: &mut Out) {}
+    /// a (mutated / crafted) proof as sent, for models that are handed the proof
+    fn proof_input(_name: &str, _pf: &Pf<Self>, _out: &mut Out) {}
+    /// models that thread the squeezes of the transcript are given every squeeze event of every run
+    fn wants_sq_events() -> bool { false }
     /// C19: the shape parameters a size formula depends on (vector lengths, option tags)
     /// field draws the committer / the prover take beyond the generic estimate (schemes that always blind)
     fn extra_commit_draws(_c: &Case) -> usize { 0 }
@@ -224,7 +231,9 @@ where
         let sb = ser(&states[i]);
         out.obs1(&format!("state.{}", i), "H", sha_hex(&sb));
         A::comm_obs(i, comms[i].commitment(), &states[i], out);
+        A::model_inputs(i, &ck, polys[i].polynomial(), comms[i].commitment(), out);
     }
+    for j in 0..npts { A::point_input(j, &pts[j], out); }
 
     // ---- C07: repeated commitments under equal / different RNG streams, and without an RNG ----
     if c.has("c07") {
@@ -412,6 +421,10 @@ where
         out.obs(&format!("vlog.{}", t), "S", &{ let s = vs.summary(vstart); if s.is_empty() { vec!["-".into()] } else { s } });
         out.input(&format!("chal.{}", t), &ps.challenges(pstart));
         out.input(&format!("vchal.{}", t), &vs.challenges(vstart));
+        if A::wants_sq_events() {
+            out.input(&format!("psq.{}", t), &ps.sq_events(pstart));
+            out.input(&format!("vsq.{}", t), &vs.sq_events(vstart));
+        }
         out.obs1(&format!("nchal.{}", t), "N", ps.challenges(pstart).len().to_string());
         out.obs1(&format!("nvchal.{}", t), "N", vs.challenges(vstart).len().to_string());
         {
@@ -475,11 +488,16 @@ where
                     _ => skipped = true,
                 }
                 if skipped { out.obs1(&name, "S", "skipped".into()); continue; }
+                if matches!(kind, "proof_mut" | "proof_mut_v" | "attack") {
+                    A::proof_input(&format!("mpf.{}", m), &pf, out);
+                    out.input(&format!("mvals.{}", m), &{ let v = fs_to_strs(&values); if v.is_empty() { vec!["-".into()] } else { v } });
+                }
                 let _ = A::take_hash_log();
                 let d = guard_any(|| A::PC::check(&vk, sel.iter().map(|i| &cms[*i]), &pts[pj], values.clone(), &pf, &mut vs2, Some(&mut vrng)));
                 { let hl = A::take_hash_log(); if !hl.is_empty() { out.input(&format!("mhchal.{}", m), &hl); } }
                 out.obs1(&name, "S", decision(&d));
                 out.input(&format!("mchal.{}", m), &vs2.challenges(vs2_start));
+                if A::wants_sq_events() { out.input(&format!("msq.{}", m), &vs2.sq_events(vs2_start)); }
             }
             "batch" => {
                 let bp = match &rec.bproof { Some(p) => p.clone(), None => { out.obs1(&name, "S", "skipped".into()); continue; } };
@@ -495,7 +513,7 @@ where
                     "point" => { newpt = Some((args[0].parse().unwrap(), args[1].parse().unwrap())); }
                     "comm_swap" => { let i: usize = args[0].parse().unwrap(); let j: usize = args[1].parse().unwrap(); swap(&mut cms, i, j); }
                     "comm_mut" => { let i: usize = args[0].parse().unwrap(); match A::mutate_comm(&args[1], &cms[i], &args[2..]) { Some(x) => cms[i] = x, None => skipped = true } }
-                    "proof_mut" => { let k: usize = args[0].parse().unwrap(); if k < pv.len() { match A::mutate_proof(&args[1], &pv[k], &args[2..]) { Some(x) => pv[k] = x, None => skipped = true } } else { skipped = true } }
+                    "proof_mut" => { let k: usize = args[0].parse().unwrap(); if k < pv.len() { match A::mutate_proof(&args[1], &pv[k], &args[2..]) { Some(x) => { A::proof_input(&format!("mpf.{}", m), &x, out); pv[k] = x }, None => skipped = true } } else { skipped = true } }
                     "proofs" => {
                         match args[0].as_str() {
                             "perm" => { let a: usize = args[1].parse().unwrap(); let b: usize = args[2].parse().unwrap(); if a < pv.len() && b < pv.len() { pv.swap(a, b); } else { skipped = true; } }
@@ -536,6 +554,7 @@ where
                 { let hl = A::take_hash_log(); if !hl.is_empty() { out.input(&format!("mhchal.{}", m), &hl); } }
                 out.obs1(&name, "S", decision(&d));
                 out.input(&format!("mchal.{}", m), &vs2.challenges(vs2_start));
+                if A::wants_sq_events() { out.input(&format!("msq.{}", m), &vs2.sq_events(vs2_start)); }
             }
             "lc" => {
                 let mut lp = match &rec.lcproof { Some(p) => p.clone(), None => { out.obs1(&name, "S", "skipped".into()); continue; } };
@@ -584,6 +603,7 @@ where
                 let d = guard_any(|| A::PC::check_combinations(&vk, lcv.iter(), rec.vperm.iter().map(|i| &cms[*i]), &qs, &evals, &lp, &mut vs2, &mut vrng));
                 out.obs1(&name, "S", decision(&d));
                 out.input(&format!("mchal.{}", m), &vs2.challenges(vs2_start));
+                if A::wants_sq_events() { out.input(&format!("msq.{}", m), &vs2.sq_events(vs2_start)); }
             }
             _ => out.obs1(&name, "S", "skipped".into()),
         }
